@@ -317,6 +317,148 @@ def gen_stop(seed: int, k: int | None = None, kind: str | None = None) -> dict:
     return sc
 
 
+PAYLOADS = [
+    None, 0, -1, 2 ** 53 + 1, 1.5, True, '', 'plain', 'üñí¢ødé ✓ 日本', 'line\nbreak "quoted" \\ back', '\u2028sep', [],
+    {}, [1, [2, [3, {'k': None}]]], {'a': {'b': {'c': [1, 2, {'d': 'é'}]}}}, {'$dt': '2024-02-29T12:30:00+00:00'},
+    {'when': {'$dt': '1999-12-31T23:59:59.999999+00:00'}, 'tags': ['x', 'ÿ']}, {'k' * 40: 'v' * 200}, [None, False, 0, ''],
+]
+
+
+def gen_wal(seed: int, fault_at: int | None = None, fault_kind: str | None = None, faulty: bool = False) -> dict:
+    """C17: WAL-enabled buses, nested / forwarded / duplicated events, generated payloads, optional I/O faults."""
+    r = random.Random(seed * 15485863 + 3)
+    nb = r.choice([1, 1, 2, 2, 3])
+    buses = [f'b{i}' for i in range(nb)]
+    sc = {'v': 1, 'profile': 'wal', 'seed': seed, 'max_depth': r.choice([1, 2]), 'event_timeout': 300.0,
+          'buses': [{'name': b, 'parallel': r.random() < 0.1, 'max_history': 50, 'wal': (i == 0 or r.random() < 0.6)} for i, b in enumerate(buses)],
+          'bus_order': {'perm': r.sample(range(nb), nb), 'rotate_every': 0}, 'handlers': [], 'callers': [], 'faults': {}}
+    types = ['E0', 'E1', 'E2']
+
+    def opts():
+        o = {}
+        if r.random() < 0.7:
+            o['payload'] = r.choice(PAYLOADS)
+        if r.random() < 0.25:
+            o['extra'] = {r.choice(['x_note', 'x_count', 'user_id']): r.choice(['é', 7, [1, 2], {'$dt': '2030-01-01T00:00:00+00:00'}])}
+        return o
+
+    if nb > 1 and r.random() < 0.6:
+        for _ in range(r.choice([1, 1, 2])):
+            a, b = r.sample(buses, 2)
+            sc['handlers'].append({'bus': a, 'kind': 'forward', 'to': b, 'pattern': '*'})
+    for b in buses:
+        for _ in range(r.choice([0, 1, 1, 2])):
+            prog = []
+            for _ in range(r.choice([0, 1, 1, 2])):
+                x = r.random()
+                if x < 0.3:
+                    prog.append(['pause', r.choice([0.0, 0.001, 0.002, 0.003, 0.01])])
+                elif x < 0.55:
+                    prog.append(['dispatch', r.choice(buses), r.choice(types), opts(), 'v'])
+                elif x < 0.85:
+                    prog.append(['dispatch_await', r.choice(buses), r.choice(types), opts(), 'v'])
+                elif x < 0.93:
+                    prog.append(['raise', 'ValueError'])
+                    break
+                else:
+                    prog.append(['redispatch_self', r.choice(buses)])
+            sc['handlers'].append({'bus': b, 'pattern': r.choice(types + ['*']), 'kind': r.choice(['async', 'async', 'sync']), 'prog': prog})
+    for ci in range(r.choice([1, 1, 2])):
+        prog = []
+        for i in range(r.choice([1, 2, 3, 4])):
+            prog.append([r.choice(['dispatch', 'dispatch_await']), r.choice(buses), r.choice(types), opts(), f'r{i}'])
+            if r.random() < 0.15:
+                prog.append(['redispatch', r.choice(buses), f'r{i}'])
+            if r.random() < 0.2:
+                prog.append(['pause', r.choice([0.0, 0.001, 0.0025, 0.004])])
+        sc['callers'].append({'prog': prog})
+    lat = r.choice([[0.0, 0.0, 0.0], [0.0, 0.002, 0.003], [0.0, 0.0, 0.001], [0.0, 0.05, 0.06]])
+    io = {'latency': lat, 'faults': {}}
+    kinds = ['mkdir_error', 'open_error', 'write_error', 'short_write', 'close_error']
+    if fault_at is not None:
+        io['faults'][str(fault_at)] = fault_kind
+    elif faulty:
+        for _ in range(r.choice([1, 1, 2, 3])):
+            # op index i is mkdir/open/write/close of attempt i//4 when no earlier fault shifted the sequence
+            i = r.randrange(0, 40)
+            io['faults'][str(i)] = kinds[i % 4] if r.random() < 0.7 else r.choice(kinds)
+    sc['faults']['io'] = io
+    return sc
+
+
+def _wal_enum(seed):
+    base, i = seed // 128, seed % 128
+    op, variant = i // 2, i % 2
+    kind = ['mkdir_error', 'open_error', 'write_error' if variant == 0 else 'short_write', 'close_error'][op % 4]
+    return dict(gen_wal(base, fault_at=op, fault_kind=kind), profile='wal_enum', seed=seed)
+
+
+PROFILES['wal'] = lambda seed: gen_wal(seed)
+PROFILES['wal_faults'] = lambda seed: dict(gen_wal(seed, faulty=True), profile='wal_faults')
+# enumeration: 128 consecutive seeds put a fault at every I/O op index 0..63 (both write-fault variants) of one base run
+PROFILES['wal_enum'] = _wal_enum
+def gen_expect(seed: int) -> dict:
+    """C18: event streams x filters x timeouts x concurrent expect() calls x cancellation."""
+    r = random.Random(seed * 32452843 + 9)
+    nb = r.choice([1, 1, 1, 2])
+    buses = [f'b{i}' for i in range(nb)]
+    types = ['E0', 'E1']
+    sc = {'v': 1, 'profile': 'expect', 'seed': seed, 'max_depth': 1, 'event_timeout': 300.0, 'faults': {},
+          'buses': [{'name': b, 'parallel': r.random() < 0.1, 'max_history': 50} for b in buses],
+          'bus_order': {'perm': list(range(nb)), 'rotate_every': 0}, 'handlers': [], 'callers': []}
+    for b in buses:
+        for _ in range(r.choice([0, 1, 2])):
+            prog = [['pause', dur(r)]] if r.random() < 0.6 else []
+            if r.random() < 0.1:
+                prog.append(['raise', 'ValueError'])
+            sc['handlers'].append({'bus': b, 'pattern': r.choice(types + ['*']), 'kind': r.choice(['async', 'async', 'sync']), 'prog': prog})
+    if nb > 1 and r.random() < 0.5:
+        sc['handlers'].append({'bus': 'b0', 'kind': 'forward', 'to': 'b1', 'pattern': '*'})
+
+    def filt():
+        f = {}
+        x = r.random()
+        if x < 0.3:
+            f['inc'] = ['mod', r.choice([2, 3]), r.choice([0, 1])]
+        elif x < 0.5:
+            f['inc'] = ['ge', r.randrange(0, 9)]
+        elif x < 0.6:
+            f['inc'] = ['eq', r.randrange(0, 9)]
+        elif x < 0.65:
+            f['inc'] = ['raise', r.randrange(2, 9)]
+        if r.random() < 0.3:
+            f['exc'] = r.choice([['mod', 2, r.choice([0, 1])], ['eq', r.randrange(0, 9)], ['ge', r.randrange(4, 12)], ['raise', r.randrange(3, 9)]])
+        if r.random() < 0.15:
+            f['pred'] = r.choice([['ge', r.randrange(0, 6)], ['mod', 2, 0], ['false']])
+        return f
+
+    nexp = r.choice([1, 2, 2, 3, 4])
+    for i in range(nexp):
+        prog = []
+        if r.random() < 0.6:
+            prog.append(['pause', dur(r)])
+        for _ in range(r.choice([1, 1, 2])):
+            prog.append(['expect', r.choice(buses), r.choice(types), filt(), r.choice([0.05, 0.1, 0.1001, 0.15, 0.3, 0.5, 1.0]), r.choice(['class', 'name'])])
+        sc['callers'].append({'prog': prog})
+    # producers
+    for _ in range(r.choice([1, 1, 2])):
+        prog = []
+        for i in range(r.choice([2, 4, 6, 9])):
+            if r.random() < 0.5:
+                prog.append(['pause', dur(r)])
+            prog.append([r.choice(['dispatch', 'dispatch', 'dispatch_await']), r.choice(buses), r.choice(types), {'v': r.randrange(0, 10)}, f'r{i}'])
+        sc['callers'].append({'prog': prog})
+    # a canceller
+    if r.random() < 0.5:
+        sc['callers'].append({'prog': [['pause', dur(r)], ['cancel_caller', r.randrange(nexp)]]})
+    if r.random() < 0.3:
+        sc['faults']['at_step'] = [[r.randrange(5, 200), ['cancel_caller', r.randrange(nexp)]]]
+    if r.random() < 0.2:
+        sc['faults']['stalls'] = [[round(r.random() * 0.3, 6), r.choice([0.001, 0.05, 0.11])]]
+    return sc
+
+
+PROFILES['expect'] = gen_expect
 PROFILES['stop'] = lambda seed: gen_stop(seed)
 # enumeration: 256 consecutive seeds place the fault before every callback step 1..256 of one base run
 PROFILES['stop_enum'] = lambda seed: dict(gen_stop(seed // 256, k=seed % 256 + 1), profile='stop_enum', seed=seed)
